@@ -296,6 +296,8 @@ func (b *Batch) flushStaged() error {
 
 	// 追加操作全部完成后, 更新索引
 	for i, record := range b.staged {
+		// 维护总数据量, 与 Put/Delete 保持一致
+		b.db.totalSize += int64(dataPos[i].Size)
 		var pos *datafile.DataPos
 		if record.Type == datafile.LogRecordDeleted {
 			pos = b.db.index.Delete(record.Key)
